@@ -6,6 +6,61 @@ fn st(h: &str) -> String {
     String::from_utf8(unhx(h)).expect("utf8")
 }
 
+/// `cmp`, `==`, `partial_cmp`, the four operators and `max` / `min` of one pair, all through the type's own impls.
+/// `max` / `min` are reported as the argument that came back: `l`, `r`, `b` (the two are field-wise alike), `?` (neither).
+fn ops_obs<T: Ord + Clone, V: PartialEq>(x: &T, y: &T, eq: bool, values: impl Fn(&T) -> V) -> String {
+    let which = |m: T| {
+        let (vm, vx, vy) = (values(&m), values(x), values(y));
+        if vx == vy { if vm == vx { "b" } else { "?" } } else if vm == vx { "l" } else if vm == vy { "r" } else { "?" }
+    };
+    let pc = match x.partial_cmp(y) {
+        Some(o) => ord_str(o),
+        None => "none",
+    };
+    format!(
+        "{},{},{},{},{},{},{},{},{}",
+        ord_str(x.cmp(y)),
+        eq,
+        pc,
+        (x < y) as u8,
+        (x <= y) as u8,
+        (x > y) as u8,
+        (x >= y) as u8,
+        which(x.clone().max(y.clone())),
+        which(x.clone().min(y.clone()))
+    )
+}
+
+/// the oracle tables vendored under tools/gen/data (rpm's tests/rpmvercmp.at, libsolv's answers): the real code is run on
+/// every pair of them; the expected answers are proved of the spec in Props/C13.lean (`vectors_ok`, `libsolv_*_ok`)
+const AT_VECTORS: &str = include_str!("../../tools/gen/data/rpmvercmp.at.txt");
+const LIBSOLV_VERCMP: &str = include_str!("../../tools/gen/data/vercmp_libsolv.txt");
+const LIBSOLV_EVRCMP: &str = include_str!("../../tools/gen/data/evrcmp_libsolv.txt");
+
+fn oracle_requests() -> Vec<String> {
+    let mut out = Vec::new();
+    for l in AT_VECTORS.lines() {
+        if let Some(rest) = l.trim().strip_prefix("RPMVERCMP(") {
+            let parts: Vec<&str> = rest.trim_end_matches(')').split(", ").collect();
+            if parts.len() == 3 {
+                out.push(format!("vercmp {} {}", hx(parts[0].as_bytes()), hx(parts[1].as_bytes())));
+            }
+        }
+    }
+    for (op, text) in [("vercmp", LIBSOLV_VERCMP), ("evrstrcmp", LIBSOLV_EVRCMP)] {
+        for l in text.lines() {
+            if l.starts_with('#') {
+                continue;
+            }
+            let t: Vec<&str> = l.split_whitespace().collect();
+            if t.len() >= 3 {
+                out.push(format!("{} {} {}", op, t[0], t[1]));
+            }
+        }
+    }
+    out
+}
+
 pub fn eval(op: &str, a: &[&str]) -> Option<String> {
     match op {
         "vercmp" => {
@@ -17,13 +72,16 @@ pub fn eval(op: &str, a: &[&str]) -> Option<String> {
             let f: Vec<String> = a.iter().map(|h| st(h)).collect();
             let x = Evr::new(f[0].as_str(), f[1].as_str(), f[2].as_str());
             let y = Evr::new(f[3].as_str(), f[4].as_str(), f[5].as_str());
-            Some(format!("{},{}", ord_str(x.cmp(&y)), x == y))
+            Some(ops_obs(&x, &y, x == y, |e: &Evr| (e.epoch().to_string(), e.version().to_string(), e.release().to_string())))
         }
         "nevracmp" => {
             let f: Vec<String> = a.iter().map(|h| st(h)).collect();
             let x = Nevra::new(f[0].as_str(), f[1].as_str(), f[2].as_str(), f[3].as_str(), f[4].as_str());
             let y = Nevra::new(f[5].as_str(), f[6].as_str(), f[7].as_str(), f[8].as_str(), f[9].as_str());
-            Some(format!("{},{}", ord_str(x.cmp(&y)), x == y))
+            Some(ops_obs(&x, &y, x == y, |n: &Nevra| {
+                let v = n.values();
+                (v.0.to_string(), v.1.to_string(), v.2.to_string(), v.3.to_string(), v.4.to_string())
+            }))
         }
         "evrstrcmp" => {
             let (x, y) = (st(a[0]), st(a[1]));
@@ -53,6 +111,9 @@ fn rand_version(rng: &mut Rng) -> String {
     const PARTS: &[&str] = &[
         "0", "00", "1", "01", "9", "10", "2", "a", "B", "rc", "alpha", "z", ".", "..", "-", "_", "~", "^", "~~", "é",
         "+", "git", "20240101", "007",
+        // characters a Unicode-aware classification would take for digits or letters (`char::is_numeric`, `is_alphabetic`),
+        // other non-ASCII ones (2-, 3- and 4-byte), a combining mark, and the ASCII neighbours of '0'..'9', 'A'..'Z', 'a'..'z'
+        "٣", "²", "１", "Ａ", "€", "𝄞", "\u{301}", "/", ":", "@", "[", "`", "{",
     ];
     let n = rng.below(8) as usize;
     (0..n).map(|_| *rng.pick(PARTS)).collect()
@@ -68,11 +129,9 @@ fn mutate(rng: &mut Rng, s: &str) -> String {
 }
 
 pub fn gen(ctx: &mut Ctx) {
-    let alpha: Vec<&str> = if ctx.thorough {
-        vec!["0", "1", "9", "a", "B", ".", "-", "_", "~", "^", "é"]
-    } else {
-        vec!["0", "1", "a", "B", ".", "~", "^", "é"]
-    };
+    // the alphabet the property's quantifier names: digits incl. 0, letters of both cases, '.', '-', '_', '~', '^', a non-ASCII
+    // character — every ordered pair of strings up to length 3
+    let alpha: Vec<&str> = vec!["0", "1", "9", "a", "B", ".", "-", "_", "~", "^", "é"];
     let strs = all_strings(&alpha, 3);
     let (si, sn) = ctx.shard;
     for (i, a) in strs.iter().enumerate() {
@@ -81,6 +140,27 @@ pub fn gen(ctx: &mut Ctx) {
         }
         for b in &strs {
             ctx.req(&format!("vercmp {} {}", hx(a.as_bytes()), hx(b.as_bytes())));
+        }
+    }
+    // the wide alphabet: the same letters plus the characters on which a wrong character class would show — non-ASCII
+    // digits and letters (Arabic-Indic three, superscript two, full-width one and A), other 3- / 4-byte characters, a combining
+    // mark, and the ASCII neighbours of the digit and letter ranges — every ordered pair of strings up to length 2
+    let wide: Vec<&str> = vec![
+        "0", "1", "9", "a", "B", ".", "-", "_", "~", "^", "é", "٣", "²", "１", "Ａ", "€", "𝄞", "\u{301}", "/", ":", "@", "[", "`", "{",
+    ];
+    let wstrs = all_strings(&wide, 2);
+    for (i, a) in wstrs.iter().enumerate() {
+        if (i as u64) % sn != si {
+            continue;
+        }
+        for b in &wstrs {
+            ctx.req(&format!("vercmp {} {}", hx(a.as_bytes()), hx(b.as_bytes())));
+        }
+    }
+    // the vendored oracle pairs (rpm's own test cases, libsolv's answers) through the real code
+    for (i, r) in oracle_requests().iter().enumerate() {
+        if (i as u64) % sn == si {
+            ctx.req(r);
         }
     }
     // long random strings biased to shared prefixes, leading zeros, separator runs
@@ -121,7 +201,7 @@ pub fn gen(ctx: &mut Ctx) {
         ctx.req(&format!("vercmp {} {}", hx(a.as_bytes()), hx(b.as_bytes())));
     }
     // EVR / NEVRA products and equality
-    let pool = ["", "0", "1", "01", "2", "1.0", "1.0~rc1", "1.0^git", "a", "é"];
+    let pool = ["", "0", "1", "01", "2", "1.0", "1.0~rc1", "1.0^git", "a", "é", "00", "1a", "10", "4294967296", "00000000000000000001", "18446744073709551616", "²"];
     let n = ctx.q(20_000, 300_000) / sn;
     for _ in 0..n {
         let f: Vec<String> = (0..10).map(|_| hx(ctx.rng.pick(&pool).as_bytes())).collect();
